@@ -67,3 +67,19 @@ impl StorageMap {
 #[derive(Debug)]
 #[non_exhaustive]
 pub struct AlreadyDestructedError;
+
+impl Drop for StorageMap {
+    fn drop(&mut self) {
+        // When an execution fails, its state (and with it the thread-locals of unfinished tasks and
+        // the lazy statics) is dropped while the failure unwinds out of the execution, where
+        // Shuttle's primitives are no longer usable. A destructor that touches one of them (another
+        // thread-local, a lock, ...) would panic inside a destructor during unwinding and abort the
+        // process instead of letting the test fail. Leak the values instead, as is already done for
+        // the continuations of unfinished tasks.
+        if std::thread::panicking() {
+            for (_, value) in self.locals.drain() {
+                std::mem::forget(value);
+            }
+        }
+    }
+}
